@@ -378,4 +378,10 @@ Definition kepler_variation (p1 dp : T * T * T * T * T * T) (M dt beta X ri : T)
     dvx + (fd * dx + gd * dvx + dfd * x + dgd * vx),
     dvy + (fd * dy + gd * dvy + dfd * y + dgd * vy),
     dvz + (fd * dz + gd * dvz + dfd * z + dgd * vz)), hang).
+(* ---- deferred synchronisation of WHFast (reb_integrator_whfast_synchronize / part1 / part2, Kepler part) ----
+   With safe_mode = 0 the first step drifts by dt/2, every further step by dt (the two half drifts are merged) and
+   reb_integrator_whfast_synchronize completes the pending half drift with  r->dt/2.  (default, modified-kick, lazy
+   kernels) resp.  3.*r->dt/8.  (composition kernel): a function of the CURRENT r->dt, not of dt_last_done. *)
+Definition whfast_sync_drift (composition : bool) (dt : T) : T :=
+  if composition then cz 3 * dt / cz 8 else dt / cz 2.
 End Kepler.
